@@ -49,7 +49,7 @@ man = {
    "enable": "every goto-cc compilation of a harness passes -DASL_VERIF; with it verif_hooks.h expands VERIF_LOOP(name) to the loop contract text held in /verif/contracts; without it the macro expands to nothing and object code is unchanged",
    "baseline_off_cmd": "cmake -G Ninja -S /repo -B /repo/_build >/dev/null && cmake --build /repo/_build && ctest --test-dir /repo/_build -j8 --timeout 900",
    "source_commits": json.load(open(os.path.join(V, "hook_commits.json"))) if os.path.exists(os.path.join(V, "hook_commits.json")) else [],
-   "add_only": True
+   "add_only": False
  },
  "engines": [{"name": "cbmc-contracts", "path": "/verif/bin/check", "serves_properties": claimed,
               "kind_free_text": "python driver: goto-cc on harness + real /repo TU, goto-instrument --dfcc contract instrumentation, cbmc (SAT), native ASan/UBSan replay of counterexamples"}],
